@@ -7,8 +7,9 @@ from core import Case
 from pyerr import exc_code
 
 PROP = 'C19'
-COQ_TARGETS = ['theories/RouterCacheFacts.vo', 'theories/RouterCacheRenum.vo', 'theories/RouterCacheSweep.vo']
-COQ_IMPORTS = 'From Bac Require Import Base RouterCache.'
+COQ_TARGETS = ['theories/RouterCacheFacts.vo', 'theories/RouterCacheRenum.vo', 'theories/RouterCacheSweep.vo',
+               'theories/RouterNodeFacts.vo']
+COQ_IMPORTS = 'From Bac Require Import Base RouterCache RouterNode.'
 RULE = ('cases: histories over {learn(snet, router, dnets, status), status(snet, router), forget router, forget dnets, '
         'forget dnets of a router, forget with neither (refused), renumber(old, new)} on source nets {None,1,2,3} x routers '
         '{1,2,3} x dnets {10,11,12,13}: every history of length 1 over the 105-op alphabet, of length 2 over its 38-op core (all 105^2 in the thorough tier) plus 3000 seeded pairs, seeded random ones of length '
@@ -709,7 +710,7 @@ def run_msgs(msgs, learned_a, start_a=1, three=False, probe=None):
                 netA = new
             rig.send_nni('A', m[2], new)
         rig.step_emitted = rig.emitted()
-        out.append((len(hist), dump(rig.cache, SNN, AD, DN), extra, m))
+        out.append((len(hist), dump(rig.cache, SNN, AD, DN), extra, m, rig.step_emitted, rig.pending(), netA))
         if probe is not None:
             if probe(rig, list(hist), netA, set(down), m):
                 break
@@ -746,6 +747,73 @@ TRAFFIC_WITNESSES = [
 ]
 
 
+def random_traffic(rng, n, three):
+    """frames for the node model: announcements (lists mixing remote and attached nets), application
+    requests, routed through-traffic, routed local traffic, withdrawals, Network-Number-Is"""
+    lans = 'ABC' if three else 'AB'
+    msgs = []
+    for _ in range(n):
+        r = rng.random()
+        lan, mac = rng.choice(lans), rng.choice(AD)
+        if r < 0.30:
+            k = rng.choice([1, 1, 2, 2, 3, 4])
+            msgs.append(('iam', lan, mac, tuple(rng.choice(DN + DN + [1, 2, 3, 4]) for _ in range(k))))
+        elif r < 0.60:
+            msgs.append(('req', rng.choice(DN)))
+        elif r < 0.80:
+            msgs.append(('fwd', lan, mac, rng.choice(DN + [1, 2, 3, 4]), rng.choice(DN)))
+        elif r < 0.86:
+            msgs.append(('routed', lan, mac, rng.choice(DN + [1, 2, 3, 4])))
+        elif r < 0.94:
+            k = rng.random()
+            msgs.append(('del', lan, mac if k < 0.7 else None, None if k < 0.3 else (rng.choice(DN),)))
+        else:
+            msgs.append(('nni', 'A', mac, rng.choice([1, 3, 3])))
+    return msgs
+
+
+def case_traffic(msgs, learned_a, three=False):
+    """emitted frames + parked requests + cache after every step against the node model RouterNode.v"""
+    desc = {'op': 'nsap', 'learned_a': learned_a, 'three': three, 'msgs': [list(m) for m in msgs]}
+    key = ('traffic', learned_a, three, tuple(msgs))
+    try:
+        out, hist, rig, _ = run_msgs(msgs, learned_a, three=three)
+    except RecursionError:
+        raise
+    except Exception as e:
+        return Case('nsap-traffic', '[0]', [1, exc_code(e)], key=key, nontrivial=True, desc=desc)
+    lan_net = lambda lan, netA: (NONE if netA is None else netA) if lan == 'A' else {'B': 2, 'C': 4}[lan]
+    exp, steps, done, ntag = [], [], 0, 0
+    netA_before = 1
+    for n, d, extra, m, em, pend, netA in out:
+        if m[0] == 'req':
+            ntag += 1
+            steps.append('NReq %d %d' % (m[1], ntag))
+        elif m[0] == 'iam':
+            steps.append('NIAm %s %s %s' % (_z(lan_net(m[1], netA)), _z(m[2]), _zl(m[3])))
+        elif m[0] == 'fwd':
+            steps.append('NFwd %s %s %s %s' % (_z(lan_net(m[1], netA)), _z(m[2]), _z(m[3]), _z(m[4])))
+        elif m[0] == 'nni' and n > done:
+            op = hist[done]
+            steps.append('NRenum %s %s' % (_z(op[1]), _z(op[2])))
+        else:
+            steps.append('NOps %s' % coq_hist(hist[done:n]))
+        done = n
+        exp.append(len(em))
+        for e in em:
+            if e[0] == 'send':
+                exp += [1, lan_net(e[1], netA), e[2], e[3], e[4], oz1(e[5])]
+            else:
+                exp += [2, lan_net(e[1], netA), e[2]]
+        for dn in DN:
+            tags = pend.get(dn)
+            exp += ([len(tags)] + list(tags)) if tags else [0]
+        exp += pack(d)
+    ads = ([2] + ([4] if three else []) + [1]) if learned_a else ([1, 2] + ([4] if three else []))
+    expr = 'observe_node %s %s %s (mkN empty %s []) [%s]' % (_zl(SNN), _zl(AD), _zl(DN), _zl(ads), '; '.join(steps))
+    return Case('nsap-traffic', expr, exp, key=key, nontrivial=True, desc=desc)
+
+
 def case_nsap(msgs, learned_a, three=False):
     """expected = dump after each frame / link change; model = dump after the corresponding prefix of
     ops (which ignore the link states)"""
@@ -759,7 +827,7 @@ def case_nsap(msgs, learned_a, three=False):
         # the node raised while handling a frame: the model (which cannot) will disagree
         return Case(kind, '[0]', [1, exc_code(e)], key=('nsap', learned_a, three, tuple(msgs)), nontrivial=True, desc=desc)
     exp, frames, done = [], [], 0
-    for n, d, extra, m in out:
+    for n, d, extra, m, _em, _pend, _netA in out:
         if extra is not None:
             # an announcement: the model is told the state of the OTHER adapters' links; it must give the
             # same cache whatever they are, and the same "handler left by an exception" flag
@@ -833,6 +901,12 @@ def cases(rng, tier):
     # announcements / routed traffic / Network-Number-Is keep arriving
     for three, learned, msgs in OUTAGE_WITNESSES + AGED_WITNESSES + TRAFFIC_WITNESSES:
         out.append(case_nsap(msgs, learned_a=learned, three=three))
+    for three, learned, msgs in TRAFFIC_WITNESSES:
+        if not any(m[0] == 'iam2' for m in msgs):
+            out.append(case_traffic(msgs, learned_a=learned, three=three))
+    for _ in range(2000 if big else 400):
+        three = rng.random() < 0.5
+        out.append(case_traffic(random_traffic(rng, rng.choice([3, 6, 10, 16]), three), learned_a=rng.random() < 0.5, three=three))
     for _ in range(200 if big else 40):
         # random histories in an aged process: pairs of competing same-instant announcements across the boundary
         three = rng.random() < 0.5
